@@ -145,6 +145,129 @@ def assign_to(st, name):
     return isinstance(st, ast.Assign) and len(st.targets) == 1 and u(st.targets[0]) == name
 
 
+# ---------------------------------------------------------------------- tolerance for harmless rewrites
+PURE_ROOTS = {"np", "numpy", "math", "KDTree", "AABB", "Vec", "float", "int", "len", "range", "sorted", "min", "max",
+              "isinstance", "deque", "PriorityQueue", "distance", "norm", "check_argument", "Exception"}
+
+
+def bound_names(fn):
+    """Local names of a function in order of first binding (parameters excluded)."""
+    params = {a.arg for a in fn.args.args}
+    seen = []
+
+    class V(ast.NodeVisitor):
+        def visit_Name(self, n):
+            if isinstance(n.ctx, ast.Store) and n.id not in params and n.id not in seen:
+                seen.append(n.id)
+
+        def visit_FunctionDef(self, n):
+            if n is fn:
+                self.generic_visit(n)
+
+    V().visit(fn)
+    return seen
+
+
+def canon_fn(fn, original):
+    """A copy of `fn` in which renamed locals carry their original names again: the locals that are new (not in
+    `original`) are matched, in order of first binding, with the original names that disappeared."""
+    import copy
+    actual = bound_names(fn)
+    new = [x for x in actual if x not in original]
+    gone = [x for x in original if x not in actual]
+    if not new or len(new) != len(gone):
+        return fn
+    used = set(actual) | {a.arg for a in fn.args.args}
+    if any(g in used for g in gone):
+        return fn
+    m = dict(zip(new, gone))
+    fn2 = copy.deepcopy(fn)
+    for n in ast.walk(fn2):
+        if isinstance(n, ast.Name) and n.id in m:
+            n.id = m[n.id]
+    return fn2
+
+
+def skey(st):
+    def tk(t):
+        if isinstance(t, ast.Tuple):
+            return ",".join(tk(e) for e in t.elts)
+        if isinstance(t, ast.Subscript):
+            return u(t.value) + "[]"
+        return u(t)
+    if isinstance(st, ast.Assign):
+        return "=" + ";".join(tk(t) for t in st.targets)
+    if isinstance(st, ast.AugAssign):
+        return "aug " + tk(st.target)
+    if isinstance(st, ast.Expr) and isinstance(st.value, ast.Call):
+        return "call " + str(T.dotted(st.value.func))
+    return type(st).__name__.lower()
+
+
+def root_of(e):
+    while isinstance(e, (ast.Attribute, ast.Subscript)):
+        e = e.value
+    return e.id if isinstance(e, ast.Name) else None
+
+
+def rw(st):
+    reads, writes = set(), set()
+    for n in ast.walk(st):
+        if isinstance(n, ast.Name):
+            (writes if isinstance(n.ctx, ast.Store) else reads).add(n.id)
+        elif isinstance(n, (ast.Attribute, ast.Subscript)) and isinstance(n.ctx, ast.Store):
+            r = root_of(n)
+            if r:
+                writes.add(r)
+        elif isinstance(n, ast.Call) and isinstance(n.func, ast.Attribute):
+            r = root_of(n.func)
+            if r and r not in PURE_ROOTS:
+                writes.add(r)  # a method call may mutate its receiver
+        if isinstance(n, (ast.Return, ast.Continue, ast.Break, ast.Raise)):
+            writes.add("<control>")
+            reads.add("<control>")
+    if isinstance(st, (ast.If, ast.While, ast.For)):
+        reads.add("<control>")
+    return reads, writes
+
+
+def conflict(a, b):
+    ra, wa = rw(a)
+    rb, wb = rw(b)
+    return bool(wa & (rb | wb)) or bool(wb & ra)
+
+
+def blk(rel, node, stmts, keys):
+    """The statements of a block, brought into the expected order `keys` (statement shape keys) if that only moves
+    statements over statements they do not depend on; otherwise the translation fails."""
+    rest = list(stmts)
+    if len(rest) != len(keys):
+        T.fail(rel, node, "block has %d statements, expected %d (%s)" % (len(rest), len(keys), ", ".join(keys)))
+    out = []
+    for k in keys:
+        pos = None
+        for i, st in enumerate(rest):
+            if skey(st) == k and not any(conflict(t, st) for t in rest[:i]):
+                pos = i
+                break
+        if pos is None:
+            T.fail(rel, node, "statement `%s` not found where expected (block: %s)" % (k, " | ".join(skey(x) for x in stmts)))
+        out.append(rest.pop(pos))
+    return out
+
+
+LOCALS = {
+    "__init__": ["root", "queue", "leaf", "split_value", "pts_less", "pts_more", "node", "leaf_less", "leaf_more",
+                 "bbmax_less", "bbmin_more"],
+    "_new_leaf": ["leaf"],
+    "_split_points": ["pts_ax", "pivot", "pivot_filter", "idx_less", "idx_more", "order", "half"],
+    "query": ["found", "n_found", "queue", "node_id", "leaf", "idx", "node", "furthest_so_far", "dist_left", "dist_right",
+              "dist", "child", "_"],
+    "query_radius": ["queue", "found_pt", "node_id", "leaf", "idx", "node"],
+    "distance": ["vec"],
+}
+
+
 def gen():
     parts = []
     out = []
@@ -154,6 +277,7 @@ def gen():
     # ================================================================== __init__
     fn = T.find_def(tree, "KDTree.__init__", KD)
     parts.append(("KDTree.__init__", T.sha(src, fn)))
+    fn = canon_fn(fn, LOCALS["__init__"])
     params = [a.arg for a in fn.args.args]
     expect(params == ["self", "points", "max_leaf_size", "strategy"], KD, fn, "__init__ signature changed")
     body = T.body_nodoc(fn)
@@ -171,15 +295,16 @@ def gen():
            "queue initialisation not recognised")
     loops = [s for s in body if isinstance(s, ast.While)]
     expect(len(loops) == 1 and u(loops[0].test) == "len(queue) > 0" and not loops[0].orelse, KD, fn, "build loop not `while len(queue)>0`")
-    lb = loops[0].body
+    lb = blk(KD, loops[0], loops[0].body, ["=leaf", "if"])
     expect(len(lb) == 2 and u(lb[0]) == "leaf = queue.popleft()" and isinstance(lb[1], ast.If), KD, loops[0],
            "build loop body is not `leaf = queue.popleft(); if ...: ... else: ...`")
     iff = lb[1]
     ex = Expr(KD, {"leaf.size": ("size", "nat"), "max_leaf_size": ("max_leaf_size", "nat")})
     leaf_ok = ex.boolean(iff.test)
     expect(len(iff.body) == 1 and u(iff.body[0]) == "self.nodes.append(leaf)", KD, iff, "leaf branch is not `self.nodes.append(leaf)`")
-    eb = iff.orelse
-    expect(len(eb) == 14, KD, iff, "split branch has %d statements, expected 14" % len(eb))
+    eb = blk(KD, iff, iff.orelse, ["=split_value,pts_less,pts_more", "=node", "=leaf_less", "=leaf_more", "=node.left,node.right",
+                                   "=bbmax_less", "=bbmax_less[]", "=bbmin_more", "=bbmin_more[]", "=leaf_less.bb", "=leaf_more.bb",
+                                   "call self.nodes.append", "call queue.append", "call queue.append"])
     expect(u(eb[0]) == "(split_value, pts_less, pts_more) = self._split_points(leaf.points, leaf.split_axis)"
            or u(eb[0]) == "split_value, pts_less, pts_more = self._split_points(leaf.points, leaf.split_axis)", KD, eb[0],
            "call of _split_points not recognised")
@@ -225,7 +350,8 @@ def gen():
     # _new_leaf
     nl = T.find_def(tree, "KDTree._new_leaf", KD)
     parts.append(("KDTree._new_leaf", T.sha(src, nl)))
-    expect([u(s) for s in T.body_nodoc(nl)] == ["leaf = KDTree.Leaf(self._nid, axis, parent, points)", "self._nid += 1", "return leaf"],
+    nl = canon_fn(nl, LOCALS["_new_leaf"])
+    expect([u(s) for s in blk(KD, nl, T.body_nodoc(nl), ["=leaf", "aug self._nid", "return"])] == ["leaf = KDTree.Leaf(self._nid, axis, parent, points)", "self._nid += 1", "return leaf"],
            KD, nl, "_new_leaf body changed")
     expect(any(u(s) == "self._nid = 0" for s in body) and any(u(s) == "self.nodes = []" for s in body), KD, fn, "self._nid = 0 / self.nodes = [] not found")
     out.append("(* kdtree.py KDTree.__init__ *)")
@@ -238,9 +364,9 @@ def gen():
     # ================================================================== _split_points
     fn = T.find_def(tree, "KDTree._split_points", KD)
     parts.append(("KDTree._split_points", T.sha(src, fn)))
+    fn = canon_fn(fn, LOCALS["_split_points"])
     expect([a.arg for a in fn.args.args] == ["self", "pt_idx", "axis"], KD, fn, "_split_points signature changed")
-    sb = T.body_nodoc(fn)
-    expect(len(sb) == 7, KD, fn, "_split_points has %d statements, expected 7" % len(sb))
+    sb = blk(KD, fn, T.body_nodoc(fn), ["=pts_ax", "=pivot", "=pivot_filter", "=idx_less", "=idx_more", "if", "return"])
     expect(u(sb[0]) == "pts_ax = self.points[pt_idx, axis]", KD, sb[0], "pts_ax = self.points[pt_idx,axis] not recognised")
     expect(u(sb[1]) == "pivot = self._find_pivot(pts_ax)", KD, sb[1], "pivot = self._find_pivot(pts_ax) not recognised")
     expect(assign_to(sb[2], "pivot_filter"), KD, sb[2], "pivot_filter assignment not recognised")
@@ -249,8 +375,7 @@ def gen():
            KD, sb[3], "np.extract of the two sides not recognised")
     expect(isinstance(sb[5], ast.If) and not sb[5].orelse, KD, sb[5], "degenerate-split guard not recognised")
     degenerate = Expr(KD, {"idx_less.size": ("n_less", "nat"), "idx_more.size": ("n_more", "nat")}).boolean(sb[5].test)
-    db = sb[5].body
-    expect(len(db) == 5, KD, sb[5], "degenerate-split branch has %d statements, expected 5" % len(db))
+    db = blk(KD, sb[5], sb[5].body, ["=order", "=half", "=pivot", "=idx_less", "=idx_more"])
     expect(u(db[0]) == "order = np.argsort(pts_ax, kind='stable')", KD, db[0], "order = np.argsort(pts_ax, kind=\"stable\") not recognised")
     expect(assign_to(db[1], "half"), KD, db[1], "half = ... not recognised")
     rank_half, ty = Expr(KD, {"pt_idx.size": ("size", "nat"), "pts_ax.size": ("size", "nat")}).term(db[1].value)
@@ -273,23 +398,25 @@ def gen():
     # ================================================================== query
     fn = T.find_def(tree, "KDTree.query", KD)
     parts.append(("KDTree.query", T.sha(src, fn)))
+    fn = canon_fn(fn, LOCALS["query"])
     expect([a.arg for a in fn.args.args] == ["self", "pt", "k"], KD, fn, "query signature changed")
-    qb = T.body_nodoc(fn)
+    qb = blk(KD, fn, T.body_nodoc(fn), ["=found", "=n_found", "=queue", "call queue.append", "while", "return"])
     expect([u(s) for s in qb[:4]] == ["found = PriorityQueue()", "n_found = 0", "queue = deque()", "queue.append(0)"], KD, fn,
            "query prologue changed")
     expect(len(qb) == 6 and isinstance(qb[4], ast.While) and u(qb[4].test) == "len(queue) > 0", KD, fn, "query loop not recognised")
-    wb = qb[4].body
+    wb = blk(KD, qb[4], qb[4].body, ["=node_id", "if"])
     expect(len(wb) == 2 and u(wb[0]) == "node_id = queue.pop()" and isinstance(wb[1], ast.If)
            and u(wb[1].test) == "self.is_leaf(node_id)", KD, qb[4], "query loop body not `node_id = queue.pop(); if self.is_leaf(node_id)`")
-    lfb = wb[1].body
+    lfb = blk(KD, wb[1], wb[1].body, ["=leaf", "for"])
     expect(len(lfb) == 2 and u(lfb[0]) == "leaf = self.nodes[node_id]" and isinstance(lfb[1], ast.For)
            and u(lfb[1].target) == "idx" and u(lfb[1].iter) == "leaf.points", KD, wb[1], "leaf branch of query not recognised")
-    fb = lfb[1].body
+    fb = blk(KD, lfb[1], lfb[1].body, ["call found.push", "aug n_found", "while"])
     expect(len(fb) == 3 and u(fb[0]) == "found.push(idx, -distance(self.points[idx], pt))" and u(fb[1]) == "n_found += 1"
            and isinstance(fb[2], ast.While), KD, lfb[1], "candidate push not recognised")
     knn_evict = Expr(KD, {"n_found": ("n_found", "nat"), "k": ("k", "nat")}).boolean(fb[2].test)
-    expect([u(s) for s in fb[2].body] == ["found.pop()", "n_found -= 1"], KD, fb[2], "eviction loop body changed")
-    nb = wb[1].orelse
+    expect([u(s) for s in blk(KD, fb[2], fb[2].body, ["call found.pop", "aug n_found"])] == ["found.pop()", "n_found -= 1"], KD, fb[2],
+           "eviction loop body changed")
+    nb = blk(KD, wb[1], wb[1].orelse, ["=node", "=furthest_so_far", "=dist_left", "=dist_right", "for"])
     expect(len(nb) == 5 and u(nb[0]) == "node = self.nodes[node_id]", KD, wb[1], "node branch of query not recognised")
     st = nb[1]
     expect(assign_to(st, "furthest_so_far") and isinstance(st.value, ast.IfExp) and u(st.value.body) == "-found.front.priority"
@@ -321,12 +448,13 @@ def gen():
     # ================================================================== query_radius
     fn = T.find_def(tree, "KDTree.query_radius", KD)
     parts.append(("KDTree.query_radius", T.sha(src, fn)))
+    fn = canon_fn(fn, LOCALS["query_radius"])
     expect([a.arg for a in fn.args.args] == ["self", "pt", "r"], KD, fn, "query_radius signature changed")
-    rb = T.body_nodoc(fn)
+    rb = blk(KD, fn, T.body_nodoc(fn), ["=queue", "=found_pt", "call queue.append", "while", "return"])
     expect(len(rb) == 5 and [u(s) for s in rb[:3]] == ["queue = deque()", "found_pt = []", "queue.append(0)"]
            and isinstance(rb[3], ast.While) and u(rb[3].test) == "len(queue) > 0" and u(rb[4]) == "return found_pt", KD, fn,
            "query_radius skeleton changed")
-    wb = rb[3].body
+    wb = blk(KD, rb[3], rb[3].body, ["=node_id", "if", "if"])
     expect(len(wb) == 3 and u(wb[0]) == "node_id = queue.popleft()" and isinstance(wb[1], ast.If) and not wb[1].orelse
            and [u(s) for s in wb[1].body] == ["continue"], KD, rb[3], "radius loop prologue not recognised")
     rad_prune = Expr(KD, {"self.nodes[node_id].bb.distance(pt)": ("d", "ext"), "r": ("r", "ext")}).boolean(wb[1].test)
@@ -339,7 +467,8 @@ def gen():
            and u(st.value.generators[0].target) == "idx" and u(st.value.generators[0].iter) == "leaf.points"
            and len(st.value.generators[0].ifs) == 1, KD, st, "radius leaf scan not recognised")
     rad_keep = Expr(KD, {"distance(self.points[idx], pt)": ("d", "Z"), "r": ("r", "Z")}).boolean(st.value.generators[0].ifs[0])
-    expect([u(s) for s in i2.orelse] == ["node = self.nodes[node_id]", "queue.append(node.left)", "queue.append(node.right)"], KD, i2,
+    expect([u(s) for s in blk(KD, i2, i2.orelse, ["=node", "call queue.append", "call queue.append"])]
+           == ["node = self.nodes[node_id]", "queue.append(node.left)", "queue.append(node.right)"], KD, i2,
            "radius node branch not recognised")
     out.append("(* kdtree.py KDTree.query_radius *)")
     out.append("Definition rad_prune (d r : ext) : bool := %s." % rad_prune)
@@ -349,6 +478,7 @@ def gen():
     asrc, atree = T.load(AB)
     fn = T.find_def(atree, "AABB.distance", AB)
     parts.append(("AABB.distance", T.sha(asrc, fn)))
+    fn = canon_fn(fn, LOCALS["distance"])
     expect([a.arg for a in fn.args.args] == ["self", "pt", "which"] and [u(d) for d in fn.args.defaults] == ["'l2'"], AB, fn,
            "AABB.distance signature changed")
     ab = T.body_nodoc(fn)
